@@ -16,6 +16,7 @@ def run(ctx):
     hs += random_histories(ctx, ctx.scale(1500, 120000), misbehave_p=0.03)
     hs += C.c05_drop_full_queue_histories(ctx.rng)
     hs += C.c18_sid_reuse_histories(ctx.rng)
+    hs += C.c18_lag_srvclose_histories(ctx.rng)
     C.run_histories(ctx, hs, ["c18"])
     if ctx.hist.get("c18:quiescent-histories", 0) < 50:
         ctx.fail("build", "too-few-quiescent-histories", ctx.hist.get("c18:quiescent-histories", 0), "generator produced too few quiescent histories")
